@@ -1253,7 +1253,11 @@ impl World {
                     Err(e) => Outcome::new("media_err", format!("media err stored={stored} tamper={tamper}: {}", e.chars().take(80).collect::<String>())),
                 }
             }
-            Op::Hostile(h) => crate::hostile::exec(self, step, h.clone()),
+            Op::Hostile(h) => {
+                // a hostile participant / damaged event is a fault kind of its own
+                self.fault(&format!("hostile:{}", crate::hostile::short(h)));
+                crate::hostile::exec(self, step, h.clone())
+            }
         }
     }
 
